@@ -148,6 +148,26 @@ func runC15(c *core.Ctx) {
 						c15CheckSS(c, inst, caseID, d, ss, snap)
 					}
 					c.Obs("striped_mismatches", 2)
+					if m == 0 {
+						// no slices at all, passed as a nil outer slice
+						{
+							a := mon.NewArena(p.A, ch, 5, m+8)
+							w := a.Window(1, 4, 0, 0)
+							bsh := mon.ShapeOf(w.B)
+							inst := "ReadStriped[" + p.A.Name + "," + p.B.Name + "]"
+							mustPanic(inst, caseID+"/nil-outer-slice", d, func() { p.ReadStriped(w.B, p.B.MakeSS(nil)) })
+							c15After(c, inst, caseID, d, a, w, bsh)
+						}
+						{
+							a := mon.NewArena(p.B, ch, 5, m+9)
+							w := a.Window(1, 4, 0, 0)
+							bsh := mon.ShapeOf(w.B)
+							inst := "WriteStriped[" + p.A.Name + "," + p.B.Name + "]"
+							mustPanic(inst, caseID+"/nil-outer-slice", d, func() { p.WriteStriped(p.A.MakeSS(nil), w.B) })
+							c15After(c, inst, caseID, d, a, w, bsh)
+						}
+						c.Obs("striped_mismatches_with_nil_outer_slice", 2)
+					}
 					// the same with an outer slice whose CAPACITY reaches the channel
 					// count (rows carved from a longer [][]T): a reslice of the
 					// argument must not make the call acceptable
